@@ -1,19 +1,9 @@
-"""Per-property configuration of bin/check."""
+"""Per-property configuration of bin/check: one module per property in bin/propcfg/<ID>.py defining CONFIG."""
+import importlib.util, os, glob
 
-def _c01_sig(case, impl, pred):
-    return pred.split(":")[1] if pred.startswith("FAIL:") else pred
-
-PROPS = {
-    "C01": {
-        "modules": ["GoPlugin.Props.C01", "GoPlugin.Instance.C01"],
-        "scenario": "C01",
-        "signature": _c01_sig,
-        "rule": "first lines: every single-field deviation from 4 valid baselines x 80 client configurations (exhaustive for that slice), "
-                "line wrappers, translator variants, special streams, plus seeded random field combinations; distinct = distinct case lines; "
-                "non-trivial = Start did not plainly succeed",
-        "assumptions": ["net.ResolveTCPAddr/ResolveUnixAddr, base64+x509 parsing and the runner's PluginToHost enter the model as arbitrary functions; "
-                        "the harness records the real functions' results for each case",
-                        "bufio.Scanner first-token behaviour is modelled (Model/Scanner.lean) and validated differentially by this run"],
-        "timeout": {"quick": 900, "thorough": 3000},
-    },
-}
+PROPS = {}
+for _p in sorted(glob.glob(os.path.join(os.path.dirname(os.path.abspath(__file__)), "propcfg", "C*.py"))):
+    _spec = importlib.util.spec_from_file_location("propcfg_" + os.path.basename(_p)[:-3], _p)
+    _m = importlib.util.module_from_spec(_spec)
+    _spec.loader.exec_module(_m)
+    PROPS[os.path.basename(_p)[:-3]] = _m.CONFIG
